@@ -1511,9 +1511,11 @@ class GeoboxTiles:
             src_footprint = src.base.extent
         else:
             # compute "robust" source footprint in CRS of self via espg:4326
-            src_footprint = (
-                src.base.footprint(4326, 2) & self.base.footprint(4326, 2)
-            ).to_crs(self.base.crs)
+            src_footprint = src.base.footprint(4326, 2) & self.base.footprint(4326, 2)
+            if src_footprint.is_empty:
+                # rasters do not overlap: no tile depends on any source tile
+                return {}
+            src_footprint = src_footprint.to_crs(self.base.crs)
 
         xy_chunks_with_data = list(self.tiles(src_footprint))
         deps: Dict[Tuple[int, int], List[Tuple[int, int]]] = {}
